@@ -7,10 +7,15 @@ import (
 	"crypto"
 	_ "crypto/sha256"
 	"encoding/binary"
+	"runtime"
 	"testing"
 )
 
 func peImage(sizeOfOptHeader uint16, fileAlign uint32, nSections uint16) []byte {
+	return peImageEx(sizeOfOptHeader, fileAlign, nSections, 1024, 512)
+}
+
+func peImageEx(sizeOfOptHeader uint16, fileAlign uint32, nSections uint16, sizeOfHeaders uint32, rawSize uint32) []byte {
 	b := make([]byte, 64)
 	b[0], b[1] = 'M', 'Z'
 	binary.LittleEndian.PutUint32(b[0x3c:], 64)
@@ -24,19 +29,21 @@ func peImage(sizeOfOptHeader uint16, fileAlign uint32, nSections uint16) []byte 
 	if len(opt) >= 224 {
 		binary.LittleEndian.PutUint16(opt[0:], 0x10b)
 		binary.LittleEndian.PutUint32(opt[36:], fileAlign)
-		binary.LittleEndian.PutUint32(opt[60:], 1024) // SizeOfHeaders
+		binary.LittleEndian.PutUint32(opt[60:], sizeOfHeaders) // SizeOfHeaders
 		binary.LittleEndian.PutUint32(opt[92:], 16)   // NumberOfRvaAndSizes
 	}
 	b = append(b, opt...)
 	for i := 0; i < int(nSections); i++ {
 		sec := make([]byte, 40)
-		binary.LittleEndian.PutUint32(sec[16:], 512)               // SizeOfRawData
-		binary.LittleEndian.PutUint32(sec[20:], 1024+uint32(i)*512) // PointerToRawData
+		binary.LittleEndian.PutUint32(sec[16:], rawSize)                       // SizeOfRawData
+		binary.LittleEndian.PutUint32(sec[20:], sizeOfHeaders+uint32(i)*rawSize) // PointerToRawData
 		b = append(b, sec...)
 	}
-	for len(b) < 1024+int(nSections)*512 {
-		b = append(b, 0)
+	want := int(sizeOfHeaders)
+	if rawSize <= 65536 {
+		want += int(nSections) * int(rawSize)
 	}
+	b = append(b, make([]byte, want-len(b))...)
 	return b
 }
 
@@ -55,5 +62,35 @@ func TestReplayPEHeaderNoPanic(t *testing.T) {
 			}()
 			_, _ = DigestPE(bytes.NewReader(img), crypto.SHA256, false)
 		}()
+	}
+}
+
+// Page hashing: the first page is the headers padded to a page, and the table of page hashes must not be
+// sized by what the section table merely claims.
+func TestReplayPEPageHashNoPanicBoundedAllocation(t *testing.T) {
+	big := peImageEx(224, 512, 1, 8192, 512) // headers of two pages
+	func() {
+		defer func() {
+			if r := recover(); r != nil {
+				t.Errorf("headers larger than a page: DigestPE panicked: %v", r)
+			}
+		}()
+		_, _ = DigestPE(bytes.NewReader(big), crypto.SHA256, true)
+	}()
+	// 2 KiB file whose only section claims 4 GiB - 4 KiB of raw data
+	liar := peImageEx(224, 512, 1, 1024, 0xFFFFF000)
+	var before, after runtime.MemStats
+	runtime.ReadMemStats(&before)
+	func() {
+		defer func() {
+			if r := recover(); r != nil {
+				t.Errorf("oversized section: DigestPE panicked: %v", r)
+			}
+		}()
+		_, _ = DigestPE(bytes.NewReader(liar), crypto.SHA256, true)
+	}()
+	runtime.ReadMemStats(&after)
+	if grown := after.TotalAlloc - before.TotalAlloc; grown > 8<<20 {
+		t.Errorf("oversized section: %d bytes allocated while reading a %d-byte image", grown, len(liar))
 	}
 }
